@@ -22,6 +22,8 @@ struct cfg {
   int release_at; /* >=0: the application releases the session after this many events */
   int sni;
   int nohint;     /* the server is configured without an identity hint */
+  int lose_first; /* the network loses the first k datagrams the client sends (copies of its first handshake flight) */
+  int maxretx;    /* >0: MAX_RETRANSMIT of the client session (also the number of handshake retransmissions libcoap makes) */
   int sni_case;   /* SV_SNI only: which name / key the second client uses (see sni_cases) */
   int bound;
   int free_drops; /* drops of the first N datagrams cost nothing */
@@ -52,7 +54,7 @@ static int matching;
 static int injected_calls;
 static int events_done;
 static int released;
-static int faults_taken;
+static int faults_taken, drops_taken;
 
 /* SV_SNI: the server chooses the key by the client's SNI (callback): "gw.example.net" -> K2, "gw.example" -> K3, any other
  * name -> refused; without SNI the default key K1 applies.  A first client completes a handshake as gw.example.net (so the
@@ -296,6 +298,14 @@ step(void) {
     ev[n].kind = EV_TIMER, ev[n++].idx = (int)tmo;
   if (n == 0)
     return 0;
+  if (C->lose_first && nf > 0) {
+    ns_dgram_t *d0 = ns_inflight(0);
+    if (d0->id < C->lose_first && ns_addr_host(&d0->src) == ns_addr_host(&cli_addr)) {
+      vx_observe("   (copy %d of the client's first flight lost)", d0->id);
+      ns_drop(0);
+      return 1;
+    }
+  }
   cost[0] = 0;
   int budget = vx_budget_left();
   for (int j = 0; j < nf && j < 3 && n < VX_MAXALT - 3; j++) {
@@ -329,6 +339,7 @@ step(void) {
   case EV_DROP:
     vx_observe("   drop dgram#%d", ns_inflight(ev[c].idx)->id);
     ns_drop(ev[c].idx);
+    drops_taken++;
     break;
   case EV_TIMER:
     ns_advance((uint64_t)ev[c].idx);
@@ -353,6 +364,7 @@ run(void *arg) {
   events_done = 0;
   released = 0;
   faults_taken = 0;
+  drops_taken = 0;
   matching = is_matching();
   ns_on_send = on_send;
   ns_addr(&srv_addr, 1, 5684);
@@ -479,6 +491,8 @@ run(void *arg) {
     vx_fail("harness:client-session", "coap_new_client_session_psk2 failed");
     return;
   }
+  if (C->maxretx)
+    coap_session_set_max_retransmit(cs, (uint16_t)C->maxretx);
   submit_all();
   int steps = 0;
   while (steps++ < 800 && step())
@@ -500,7 +514,15 @@ run(void *arg) {
     char sig[120];
     if (!Q[i].accepted)
       continue;
-    if (matching && C->release_at < 0 && faults_taken) {
+    if (matching && C->release_at < 0 && C->lose_first && !faults_taken) {
+      /* nothing but the loss of the first copies of the client's first flight, no more of them than MAX_RETRANSMIT: the
+       * handshake (whose flights libcoap retransmits MAX_RETRANSMIT times) must not be given up */
+      if (Q[i].con && (Q[i].nacks || Q[i].resp_calls != 1)) {
+        snprintf(sig, sizeof sig, "queued:given-up-within-max-retransmit:%s", established_seen_c ? "after-handshake" : "handshake-abandoned");
+        vx_fail(sig, "request %d: %d responses, %d NACKs although only the first %d copies of the first handshake flight were lost (MAX_RETRANSMIT %d)",
+                i, Q[i].resp_calls, Q[i].nacks, C->lose_first, C->maxretx);
+      }
+    } else if (matching && C->release_at < 0 && (faults_taken || C->lose_first)) {
       /* datagrams were lost / duplicated / reordered: the handshake may legitimately be abandoned and CoAP-level
        * retransmissions may reach the handler again; what remains: exactly one conclusion per Confirmable request */
       if (Q[i].con && Q[i].resp_calls + Q[i].nacks != 1) {
@@ -555,8 +577,8 @@ static int ncfgs;
 static void
 add(struct cfg c) {
   cfgs = realloc(cfgs, sizeof *cfgs * (size_t)(ncfgs + 1));
-  snprintf(c.name, sizeof c.name, "c19:sv=%d,cl=%s,ncon=%d,non=%d,inj=%d@%d,rel=%d,sni=%d/%d,nh=%d,fd=%d,B=%d", c.sv, cl_names[c.cl], c.ncon, c.with_non, c.inject,
-           c.inject_at, c.release_at, c.sni, c.sni_case, c.nohint, c.free_drops, c.bound);
+  snprintf(c.name, sizeof c.name, "c19:sv=%d,cl=%s,ncon=%d,non=%d,inj=%d@%d,rel=%d,sni=%d/%d,nh=%d,mr=%d,lf=%d,fd=%d,B=%d", c.sv, cl_names[c.cl], c.ncon, c.with_non, c.inject,
+           c.inject_at, c.release_at, c.sni, c.sni_case, c.nohint, c.maxretx, c.lose_first, c.free_drops, c.bound);
   cfgs[ncfgs++] = c;
 }
 
@@ -574,6 +596,13 @@ main(int argc, char **argv) {
           c.bound = 1;
         add(c);
       }
+  /* matching credentials, MAX_RETRANSMIT 2: the loss of the first one or two copies of the client's first flight must be survived */
+  {
+    for (int k = 1; k <= 2; k++) {
+      struct cfg c = {.sv = SV_SINGLE, .cl = CL_MATCH, .ncon = 1, .release_at = -1, .maxretx = 2, .lose_first = k, .bound = T ? 1 : 0};
+      add(c);
+    }
+  }
   /* a server without identity hint: the client's hint callback still decides (it sees the empty hint) */
   for (int sv = 0; sv < 2; sv++)
     for (int cl = 0; cl < CL_NCLASSES; cl++) {
